@@ -129,7 +129,14 @@ TIME = [c for c in FULL if
         or (c['fmt'] == 'df' and (c['with_datetime'], c['cid']) in ((False, 0), (True, 7)))]
 DFREGION = [dict(fmt='df', with_datetime=wd, cid=cid, region=reg)
             for reg in ('R1m', 'R1') for wd in (False, True) for cid in (0, 7)]
-CONFIGS = {'full': FULL, 'time': TIME, 'dfregion': DFREGION, 'full+dfregion': FULL + DFREGION}
+# integer catalog ids beyond 2**31 and 2**53 (not exactly representable as a double), every format once
+BIGIDS = [2 ** 31, 123456789012, 2 ** 53 + 1, 1562383355630123457, 2 ** 63 - 1]
+BIGID = ([dict(fmt='dict', cid=c, region=None, name=NAMES[0]) for c in BIGIDS]
+         + [dict(fmt='ascii', mode='plain', header=h, cid=c, region=None) for c in BIGIDS for h in (True, False)]
+         + [dict(fmt='ascii', mode='append-new', header=True, cid=c, region=None) for c in BIGIDS]
+         + [dict(fmt='json', loader=l, cid=c, region=None, name=NAMES[0]) for c in BIGIDS for l in ('CSEPCatalog.load_json', 'csep.load_catalog')]
+         + [dict(fmt='df', with_datetime=wd, cid=c, region=None) for c in BIGIDS for wd in (False, True)])
+CONFIGS = {'bigid': BIGID, 'full': FULL, 'time': TIME, 'dfregion': DFREGION, 'full+dfregion': FULL + DFREGION}
 
 
 # ----------------------------------------------------------------------------- enumeration
@@ -210,6 +217,10 @@ def _key(cat):
 
 
 def cases(tier, seed):
+    yield from space.with_time_zones(_cases(tier, seed), 12)
+
+
+def _cases(tier, seed):
     seen = set()
     # small families, full configuration set
     groups = []
@@ -234,6 +245,8 @@ def cases(tier, seed):
         inside.append(cat)
     for chunk in space.chunks(inside, 4):
         yield dict(kind='batch', family='inside-region', configs='full+dfregion', catalogs=chunk)
+    # large integer catalog ids on the first few catalogs of the enumeration (0, 1 and 2 events)
+    yield dict(kind='batch', family='large-catalog-id', configs='bigid', catalogs=[c for _, c in list(small_catalogs(tier))[:6]])
     # the empty catalog once more, but only under the region-bound DataFrame configurations
     yield dict(kind='batch', family='inside-region', configs='dfregion', catalogs=[[]])
     # origin-time sweep: single-event catalogs
